@@ -305,8 +305,9 @@ func (p *regExpParser) scanEscape(inClass bool) {
 	default:
 		// $ is an identifier character, so we have to have
 		// a special case for it here
-		if p.chr == '$' || !isIdentifierPart(p.chr) {
+		if p.chr == '$' || p.chr < 0x80 && !isIdentifierPart(p.chr) {
 			// A non-identifier character needs escaping
+			// (re2 does not accept a backslash before a non-ASCII character, which never needs one)
 			err := p.goRegexp.WriteByte('\\')
 			if err != nil {
 				p.errors = append(p.errors, err)
